@@ -1004,6 +1004,9 @@ def register_read(R):
                 "OSError": ("unreadable-source", lambda E, v, o: UNREADABLE(v["swc_file"].z))},
         ensures=[
             ("returns-the-parsed-table-and-the-untouched-comment-list", site(post_same_objects)),
+        ] + [("sorted-read/" + w, site(post_sorted(w))) for w in SORTED_READ] + [
+            # the sorted-read clauses (about the returned table itself) stand BEFORE the clauses about which helper ran: a short-cut is then
+            # judged by what it returns, not only by the absence of the expected call
             ("root-repair-only-with-several-roots-and-only-the-requested-one", site(post_repair)),
             ("sort-nodes-else-reset-index-else-neither", site(post_renumber)),
             ("no-other-call-touches-the-table(warnings-only-warn)", site(post_nothing_else)),
@@ -1012,7 +1015,7 @@ def register_read(R):
             ("root-repair/no-other-root", site(post_repaired("no-other-root"))),
             ("root-repair/every-original-edge-kept", site(post_repaired("every-original-edge-kept"))),
             ("root-repair/ids-and-attributes-kept", site(post_repaired("ids-and-attributes-kept"))),
-        ] + [("sorted-read/" + w, site(post_sorted(w))) for w in SORTED_READ],
+        ],
         notes="file abstract (see parse_swc); all 16 combinations of fix_roots x sort_nodes x reset_index as variants; "
               "precondition: the file has a row whose parent is -1 (reset_index_/mark_roots_as_somas_ need a root)",
     )
